@@ -352,7 +352,7 @@ def _closure_source(fi, expr, depth=0):
     return "unknown"
 
 
-@rule("C06.R4", "C06", "FLOW", "removed sets are full descendant closures including the source", min_instances=8, also=("C09",))
+@rule("C06.R4", "C06", "FLOW", "removed sets are full descendant closures including the source", min_instances=8, also=("C09", "C13"))
 def r4(ctx, R):
     """TraceGraph.remove_with_descs / ReferenceGraph.remove_with_descs remove source plus a
     transitive-closure set; get_startnodes_from filters the same closure by out-degree 0;
